@@ -20,6 +20,8 @@ import "bytes"
 
 // Buffer-pool accounting hooks; they do nothing unless built with the "verif" tag.
 
+const verifEnabled = false
+
 func verifPoolGet(*bytes.Buffer, bool)           {}
 func verifPoolPut(*bytes.Buffer)                 {}
 func verifPoolWrap(*bytes.Buffer, *bytes.Buffer) {}
